@@ -424,6 +424,8 @@ func init() {
 }
 
 func runC03(c *rt.Ctx) {
+	configuredEpisode() // the process has a past: failing configured Formatters and Parsers, since restored
+	c.Extra("history_before_the_streams", "an episode of failing configured Formatter/Parser variables in all five packages")
 	L1, L2, L3 := c.Pick(7, 8), c.Pick(7, 8), c.Pick(9, 10)
 	c.SetRule(fmt.Sprintf("three exhaustive families: every string over {0,1,9,a,Z,-,.,+,v} of length 0..%d; \"1.0.0\" followed by every suffix over {0,1,9,a,Z,-,.,+} of length 0..%d; every string over {0,1,2,9,.,v} of length 0..%d; ", L1, L2, L3) +
 		"plus seeded grammar-generated versions (1-25 digit numbers biased to both sides of 2^64, identifier lists), all single-byte substitutions/insertions/deletions of seeded valid texts, and seeded Ver values for the Valid <=> round-trip link; " +
